@@ -32,6 +32,7 @@ struct World
     std::unique_ptr<Document> doc;
     std::vector<expression_t> pool;          // trees under test
     std::vector<std::string> origin;         // where each came from
+    std::map<size_t, std::pair<frame_t, frame_t>> scope;   // pool index -> (template frame, select frame) for the labels of an edge
     std::map<expression_t, int> ids;         // node identity -> number   (expression_t::operator< orders by object identity)
     std::vector<symbol_t> syms;              // symbol identity -> number
     int nid(const expression_t& e)
@@ -205,6 +206,26 @@ static std::string refFrame(World& w, const expression_t& e, const frame_t& fr)
     }
     if (k == CONSTANT) os << " " << tyTag(e);
     for (size_t i = 0; i < e.get_size(); ++i) os << " " << refFrame(w, e[i], fr);
+    os << ")";
+    return os.str();
+}
+
+/// reference for clone_deeper(frame, select): every symbol resolved by name in `frame` (and its parents), else in `select`
+static std::string refFrame2(World& w, const expression_t& e, const frame_t& fr, const frame_t& sel)
+{
+    if (e.empty()) return "()";
+    std::ostringstream os;
+    auto k = e.get_kind();
+    os << "(" << kindName(k) << " " << valOf(e);
+    if (k == IDENTIFIER && e.get_symbol() != symbol_t()) {
+        symbol_t uid;
+        frame_t f = fr, s2 = sel;
+        bool res = f.resolve(e.get_symbol().get_name(), uid);
+        if (!res && s2 != frame_t()) res = s2.resolve(e.get_symbol().get_name(), uid);
+        if (res && uid != symbol_t()) os << " #" << w.sid(uid);
+    }
+    if (k == CONSTANT) os << " " << tyTag(e);
+    for (size_t i = 0; i < e.get_size(); ++i) os << " " << refFrame2(w, e[i], fr, sel);
     os << ")";
     return os.str();
 }
@@ -535,10 +556,11 @@ static void collectDoc(World& w)
             add(l.exp_rate, t.uid.get_name() + ".exprate");
         }
         for (auto& e : t.edges) {
-            add(e.guard, t.uid.get_name() + ".guard");
-            add(e.sync, t.uid.get_name() + ".sync");
-            add(e.assign, t.uid.get_name() + ".assign");
-            add(e.prob, t.uid.get_name() + ".prob");
+            for (auto& [x, what] : {std::pair<expression_t, const char*>{e.guard, ".guard"}, {e.sync, ".sync"}, {e.assign, ".assign"}, {e.prob, ".prob"}}) {
+                if (x.empty()) continue;
+                w.scope[w.pool.size()] = {t.frame, e.select};
+                add(x, t.uid.get_name() + what);
+            }
         }
     }
 }
@@ -642,6 +664,25 @@ int main(int argc, char** argv)
                 std::cout << "NSYMS " << w.syms.size();
                 for (auto& s : w.syms) std::cout << " " << s.get_name();
                 std::cout << std::endl;
+            } else if (op == "XDOC") {   // two documents: equality of trees taken from different documents (string constants are interned per document)
+                std::string ha, hb;
+                is >> ha >> hb;
+                Document da, db;
+                parse_XML_buffer(unhex(ha).c_str(), &da, true);
+                parse_XML_buffer(unhex(hb).c_str(), &db, true);
+                std::vector<expression_t> xa, xb;
+                for (auto& v : da.get_globals().variables) if (!v.init.empty()) xa.push_back(v.init);
+                for (auto& v : db.get_globals().variables) if (!v.init.empty()) xb.push_back(v.init);
+                long n = 0, bad = 0;
+                for (auto& a : xa)
+                    for (auto& b : xb) {
+                        ++n;
+                        bool eq = a.equal(b), eq2 = b.equal(a);
+                        std::string ta = safeStr(a), tb = safeStr(b);
+                        if (eq != eq2) { ++bad; std::cout << "FAIL equal_symm cross-document " << quote(ta) << " vs " << quote(tb) << "\n"; }
+                        else if (eq && ta != tb) { ++bad; std::cout << "FAIL equal_implies_same_text cross-document trees of two documents are equal() but print " << quote(ta) << " vs " << quote(tb) << "\n"; }
+                    }
+                std::cout << "XDOC errors=" << da.get_errors().size() + db.get_errors().size() << " pairs=" << n << " fails=" << bad << std::endl;
             } else if (op == "LAWS") {   // the direct oracle on pool[k]; replacement expressions = pool[j...]
                 size_t k;
                 is >> k;
@@ -658,6 +699,14 @@ int main(int argc, char** argv)
                 const expression_t& e = w.pool.at(k);
                 std::string tag = "tree=" + std::to_string(k);
                 L.cloneLaws(e, tag);
+                if (auto sc = w.scope.find(k); sc != w.scope.end()) {
+                    // a label of an edge: clone_deeper(template frame, select frame) resolves every name where the label itself was resolved
+                    expression_t cf = e.clone_deeper(sc->second.first, sc->second.second);
+                    L.ok("clone_frame_select");
+                    std::string want = refFrame2(w, e, sc->second.first, sc->second.second);
+                    if (plain(w, cf, true) != want || sharesNode(cf, e))
+                        L.fail("clone_frame_select", kindName(e.get_kind()), tag + " got " + plain(w, cf, true) + " want " + want);
+                }
                 L.substLaws(e, repls, tag);
                 L.equalLaws(e, tag);
                 // get_size: every reported child is accessible (walked above under _GLIBCXX_ASSERTIONS); none beyond (probe per kind)
